@@ -1,7 +1,7 @@
-mod util; mod skel; mod parsers; mod corpus; mod gen; mod pegcmp; mod report; mod api; mod c01; mod c16; mod c15; mod gen_pp; mod ppcmp; mod c06; mod calls; mod c20; mod c07; mod ppref; mod ppo; mod c09; mod c18;
+mod util; mod skel; mod parsers; mod corpus; mod gen; mod pegcmp; mod report; mod api; mod c01; mod c16; mod c15; mod gen_pp; mod ppcmp; mod c06; mod calls; mod c20; mod c07; mod ppref; mod ppo; mod c09; mod c18; mod c17; mod toks; mod c14; mod c13; mod c12;
 
 fn main() {
-    util::silence_panics();
+    if std::env::var("SVH_PANICS").is_err() { util::silence_panics(); }
     let args: Vec<String> = std::env::args().skip(1).collect();
     if args.is_empty() { eprintln!("usage: svh <command> ..."); std::process::exit(2); }
     match args[0].as_str() {
@@ -17,6 +17,10 @@ fn main() {
         "c09" => c09::main(&args[1..]),
         "c09-child" => c09::child(&args[1..]),
         "c18" => c18::main(&args[1..]),
+        "c17" => c17::main(&args[1..]),
+        "c14" => c14::main(&args[1..]),
+        "c13" => c13::main(&args[1..]),
+        "c12" => c12::main(&args[1..]),
         "c03" | "c04" | "c05" | "c10" | "c11" => ppo::main(&args[1..], &args[0]),
         "parse" => { let k = skel::Kinds::load(&args[1]); println!("{}", parsers::run(&args[2], Some(Some(1024)), &args[3], &k, true).line()); }
         x => { eprintln!("unknown command {}", x); std::process::exit(2); }
